@@ -107,7 +107,9 @@ every batch, hence in every produce request, was assigned to that request's topi
 theorem no_foreign_partition (cfg : Cfg) (s : State) (hr : Reachable cfg s) :
     (∀ tp, ∀ e ∈ s.log tp, ∃ C, s.calls e.msg.1 = some C ∧ C.assign[e.msg.2]? = some tp) ∧
     (∀ b B, s.batches b = some B → ∀ m ∈ B.msgs, ∃ C, s.calls m.msg.1 = some C ∧ C.assign[m.msg.2]? = some B.tp) :=
-  ⟨(invPlace cfg s hr).logTP, (invPlace cfg s hr).batchTP⟩
+  ⟨(invPlace cfg s hr).logTP, fun b B hB m hm => by
+    obtain ⟨C, hC, ha, -⟩ := (invPlace cfg s hr).batchTP b B hB m hm
+    exact ⟨C, hC, ha⟩⟩
 
 /-- **assign_is_balancer_choice** — the recorded assignment of index i is taken once, in index order, with the topic
 that chooseTopic selects (message-level or writer-level topic; a conflict never gets an assignment). -/
